@@ -4,6 +4,7 @@
 -/
 import Rox.Spec.Refs
 import Rox.Lemmas.LdRefine
+import Rox.Lemmas.SizeBound
 
 namespace Rox.Props.C09
 open Rox Rox.Spec
@@ -141,5 +142,17 @@ all references the document made the parser expand. -/
 theorem parse_walks_protocol (T : Tables) (txt : Bytes) (opt : Opt) (c : Ctx)
     (h : parseCtx T txt depthFuel opt = .ok c) : ∃ f : Forest, walk ⟨0, 0⟩ f = some c.ld :=
   Rox.Lemmas.parseCtx_walk T txt opt c h
+
+/-- **Entity expansion is bounded** (all valid UTF-8 inputs, all options; any tables satisfying
+`TablesOK`): a successful parse never produces a tree with more than
+`256 × (input length) × (number of '&' in the input + 1)` nodes — every node is paid for by a token,
+a tokenizer run delivers no more token weight than its stream has bytes, an entity value is a slice
+of the input, below one reference written in the document the detector allows at most 255 further
+references, and every reference written in the document consumes one `&` of the input. So an
+exponential construction either fails with `EntityReferenceLoop` or stays within that bound. -/
+theorem node_count_bound (T : Tables) (hT : Rox.Lemmas.TablesOK T) (txt : Bytes) (hv : ValidUtf8 txt)
+    (opt : Opt) (d : Doc) (h : parse T txt opt = .ok d) :
+    d.nodes.size ≤ 256 * txt.length * (txt.count 38 + 1) :=
+  Rox.Lemmas.parse_node_bound T hT txt hv opt d h
 
 end Rox.Props.C09
